@@ -1,5 +1,6 @@
 """C16 -- readspec returns each requested spectrum in request order, unshifted (pydl/pydlspec2d/spec1d.py)."""
 import os
+import time
 from concurrent.futures import ThreadPoolExecutor
 
 from harness import common as C
@@ -32,6 +33,10 @@ TRUSTED = [
     'files differ in COEFF0, so the tie is the extracted rounding rule / COEFF0 updates (C16_source_align) plus a direct check of any '
     'answer the code does return (align-grid calls; all of them with fixes/C16-align-float-pixshift.diff applied)',
     'Coq stdlib ZArith, List, Permutation, Sorted, Lia, QArith/Qround (theorems closed under the global context)',
+    'round 6: answers returned although readspec_S is undefined (request without file / row, files differing in what they hold) are judged by '
+    'Model.partial_ok / rows_belong (hand-written from the first sentence of the property, no theorem relates it to readspec_S beyond sharing spec_row); '
+    'dtype expectations (harness/props/c16.py expected_dtypes) are the kinds the runner writes; the process-global-state snapshot covers '
+    'astropy.io.fits.conf, np.geterr, np.get_printoptions, os.environ (+ len(warnings.filters) per call) and nothing else',
 ]
 ASSUMPTIONS = [
     'requests are valid: plate >= 0, 0 <= MJD < 2^16 (the key is (plate<<16)+mjd), 1 <= fiber <= number of rows; '
@@ -49,6 +54,8 @@ ASSUMPTIONS = [
     'answer that is not the aligned one IS reported; COEFF0 = 0 (no wavelength solution) and off-grid COEFF0 are outside',
     'storage-type theorems hold for fibre 1..1000, DIMS0 and znum 1..1000, plate 0..99999, 0 <= MJD < 2^16, any integer storage '
     'of the caller\'s arrays that holds the values',
+    'a call on a tree whose requested files differ in what they hold (missing spZbest/spZall/photoPlate, truncated spPlate) or with a request without file '
+    'may raise: no claim either way; only a RETURNED answer is judged (one row per request, row i of request i)',
     'SPECTRO_MATCH and PHOTO_RESOLVE must be set (readspec reads them unconditionally when no photoPlate file sits next '
     'to the spPlate file)',
 ]
@@ -126,7 +133,53 @@ def file_arrays_(m):
         {'name': 'OBJID', 'kind': 'K', 'rows': [[code(uid, f, 40, 0)] for f in fibs]},
         {'name': 'MODELFLUX', 'kind': '5D', 'rows': [[code(uid, f, 41, k) for k in range(5)] for f in fibs]},
     ] if m['has_photo'] else []
+    if m.get('ucols'):
+        # unsigned integers stored the standard FITS way (TZEROn): 64-bit identifiers above 2^63 whose neighbouring fibres
+        # differ by 1 (a detour through float64 makes them equal), 32- and 16-bit values above the signed range
+        out['plug'] += [
+            {'name': 'TARGETID', 'kind': 'UK', 'rows': [[U64_BASE + (uid << 24) + f] for f in fibs]},
+            {'name': 'UMASK32', 'kind': 'UJ', 'rows': [[(1 << 31) + code(uid, f, 14, 0)] for f in fibs]},
+            {'name': 'USHORT', 'kind': 'UI', 'rows': [[(1 << 15) + (uid * 1024 + f) % (1 << 15)] for f in fibs]},
+        ]
+        if m['has_zbest']:
+            out['zbest'] += [{'name': 'SPECOBJID', 'kind': 'UK', 'rows': [[U64_BASE + (5 << 56) + (uid << 24) + f] for f in fibs]}]
+        if m['has_zall']:
+            out['zall'] += [{'name': 'SPECOBJID', 'kind': 'UK',
+                             'rows': [[U64_BASE + (6 << 56) + (uid << 24) + f * 256 + z] for f in fibs for z in range(1, nper + 1)]}]
+        if m['has_photo']:
+            out['photo'] += [{'name': 'PHOTOID', 'kind': 'UK', 'rows': [[U64_BASE + (7 << 56) + (uid << 24) + f] for f in fibs]}]
+    if m.get('umask'):
+        # unsigned 32-bit pixel masks with the top bit in use
+        for h in (2, 3):
+            out['imgs'][h] = [[v + (1 << 31) for v in row] for row in out['imgs'][h]]
+    if m.get('truncated'):
+        # a partial reduction: the spPlate file stops after the dispersion HDU (no plug-map table, no sky)
+        out['imgs'] = out['imgs'][:5]
+        out['plug'] = []
     return out
+
+
+U64_BASE = (1 << 63) + (1 << 60)
+UCOLS = {'plugmap': ['TARGETID', 'UMASK32', 'USHORT'], 'zans': ['SPECOBJID'], 'tsobj': ['PHOTOID']}
+KIND_DTYPE = {'J': 'i4', 'K': 'i8', 'D': 'f8', '5D': 'f8', 'UK': 'u8', 'UJ': 'u4', 'UI': 'u2'}
+
+
+def call_columns(ucols):
+    cols = {'plugmap': ['FIBERID', 'CODE', 'OBJTYPE', 'MAG', 'RA'], 'tsobj': ['OBJID', 'MODELFLUX'], 'zans': ['FIBERID', 'Z', 'CLASS']}
+    if ucols:
+        cols = {g: c + UCOLS[g] for g, c in cols.items()}
+    return cols
+
+
+def expected_dtypes(fa, znum):
+    """name -> dtype ('<kind><itemsize>', byte order aside) every returned array must have: the one it was written with"""
+    um = 'u4' if fa.get('umask') else 'i4'
+    exp = dict(zip(IMG_NAMES, ['f8', 'f8', um, um, 'f8', 'f8']))
+    exp['loglam'] = 'f8'
+    for grp, cols in (('plugmap', fa['plug']), ('tsobj', fa['photo']), ('zans', fa['zall'] if znum is not None else fa['zbest'])):
+        for c in cols:
+            exp['%s.%s' % (grp, c['name'])] = KIND_DTYPE.get(c['kind'])     # None: strings, any width
+    return exp
 
 
 def zl(rows):
@@ -167,6 +220,8 @@ def file_term(fa):
             C.zlit(fa['plate']), C.zlit(fa['mjd']), fa['npix'], C.zlit(fa['c0z']), C.zlit(fa['c1z']),
             C.coq_list(imgs), C.coq_list(tabs), C.coq_list(zbest), C.zlit(nper), C.coq_list(zall))
     tabs = [c['rows'] for c in fa['plug']] + [c['rows'] for c in fa['photo']]
+    if fa.get('truncated'):     # no plug-map HDU: empty columns keep the photoPlate columns at their indices
+        tabs = [[] for _ in call_columns(fa.get('ucols'))['plugmap']] + tabs
     return '(mkFile %s %s %d%%nat %s %s %s %s %s %s %s)' % (
         C.zlit(fa['plate']), C.zlit(fa['mjd']), fa['npix'], C.zlit(fa['c0z']), C.zlit(fa['c1z']),
         C.coq_list([zl(i) for i in fa['imgs']]), C.coq_list([zl(t) for t in tabs]),
@@ -271,9 +326,9 @@ def pick_store(rng, x, plain=0.35):
         return rng.choice(c)
     if rng.random() < plain:
         return rng.choice(['i4', 'i8', 'list'])
-    c = ['list', 'tuple', 'i4', 'i8', '>i4', '>i8', 'u4', '>u4', 'nc:i4', 'nc:>i4', 'nc:i8', 'ro:i4', 'ro:>i4']
-    c += ['u8', '>u8', 'nc:u8'] if len(vals) >= 2 else []
-    c += ['i2', '>i2', 'nc:>i2'] if hi < 32768 else []
+    c = ['list', 'tuple', 'i4', 'i8', '>i4', '>i8', 'u4', '>u4', 'nc:i4', 'nc:>i4', 'nc:i8', 'ro:i4', 'ro:>i4', 'rv:i4', 'rv:>i8']
+    c += ['u8', '>u8', 'nc:u8', 'rv:>u8'] if len(vals) >= 2 else []
+    c += ['i2', '>i2', 'nc:>i2', 'rv:>i2'] if hi < 32768 else []
     c += ['u2', '>u2'] if hi < 65536 else []
     c += ['u1'] if hi < 256 else []
     return rng.choice(c)
@@ -375,6 +430,16 @@ def gen_scenario(rng, si, kind, root, thorough=False):
     nper = rng.randint(2, 4)
     if kind == 'bigz':
         has_zbest, has_zall, has_photo, same_npix, nper = True, True, False, False, 134     # DIMS0 of real spZall files
+    if kind == 'holes':
+        has_zbest, has_zall, has_photo, grid = True, True, True, False
+        pm = pm[:4]
+        while len(pm) < 4:
+            q = rng.randint(1000, 9999)
+            if all(q != p for p, _ in pm):
+                pm.append((q, rng.randint(50001, 65534)))
+    # unsigned table columns (64-bit identifiers above 2^63, 32/16-bit above the signed range) and unsigned pixel masks
+    ucols = kind != 'bigz' and (si % 2 == 0 or rng.random() < 0.3)
+    umask = kind != 'bigz' and rng.random() < 0.5
     metas, decoys = [], []
     for k, (p, m) in enumerate(pm):
         nfib = 640 if kind == 'allfib-sdss' else rng.randint(3, 8)
@@ -386,6 +451,18 @@ def gen_scenario(rng, si, kind, root, thorough=False):
                 'has_zbest': has_zbest, 'has_zall': has_zall, 'has_photo': has_photo}
         if kind == 'bigz':
             meta['big'] = True
+        if ucols:
+            meta['ucols'] = True
+        if umask:
+            meta['umask'] = True
+        if kind == 'holes':
+            # file 0 complete; file 1 without spZbest/spZall; file 2 without photoPlate; file 3 a truncated spPlate file
+            if k == 1:
+                meta['has_zbest'] = meta['has_zall'] = False
+            elif k == 2:
+                meta['has_photo'] = False
+            elif k == 3:
+                meta['truncated'] = True
         if same_npix and metas:      # equal pixel counts come with equal wavelength solutions (align=True is then a no-op)
             meta['c0z'], meta['c1z'] = metas[0]['c0z'], metas[0]['c1z']
         if grid:
@@ -395,7 +472,7 @@ def gen_scenario(rng, si, kind, root, thorough=False):
         d['uid'] = 100 + k + 1
         d['c0z'] = meta['c0z'] + 7
         decoys.append(d)
-    layout = 'path' if kind in ('path', 'path5', 'allfib-sdss', 'allfib-boss', 'bigz') else 'topdir'
+    layout = 'path' if kind in ('path', 'path5', 'allfib-sdss', 'allfib-boss', 'bigz', 'holes') else 'topdir'
     trees = [{'top': os.path.join(top, 'main'), 'layout': layout, 'run2d': run2d, 'run1d': run1d, 'files': metas}]
     if kind == 'topdir':
         trees.append({'top': os.path.join(top, 'decoy'), 'layout': layout, 'run2d': run2d, 'run1d': run1d, 'files': decoys})
@@ -442,11 +519,10 @@ def gen_scenario(rng, si, kind, root, thorough=False):
             env[redux] = trees[0]['top']
         return kw, env
 
-    cols = {'plugmap': ['FIBERID', 'CODE', 'OBJTYPE', 'MAG', 'RA'],
-            'tsobj': ['OBJID', 'MODELFLUX'], 'zans': ['FIBERID', 'Z', 'CLASS']}
+    cols = call_columns(ucols)
 
     def add(tag, plate, mjd, fiber, reqs, znum=None, pass_runs=None, feature='plain', dtype=None, model=None, extra_kw=None,
-            store=None):
+            store=None, reuse=None):
         pr = pass_runs or rng.choice(['kw', 'env'])
         if mjd is None and fiber is not None and feature == 'plain' and \
                 any(v >= 10000 for v in ([plate['s']] if 's' in plate else plate['a'])):
@@ -459,6 +535,8 @@ def gen_scenario(rng, si, kind, root, thorough=False):
         call = {'plate': plate, 'mjd': mjd, 'fiber': fiber, 'kwargs': kw, 'env': env, 'columns': cols,
                 'store': store or pick_stores(rng, plate, mjd, fiber, dtype),
                 'max_rows': (len(reqs) if reqs else 12) + 2}   # rows beyond this cannot make a wrong answer right
+        if reuse:
+            call['reuse'] = reuse
         sc['calls'].append({'tag': tag, 'call': call, 'reqs': reqs, 'znum': znum, 'feature': feature,
                             'model': model or {'plate': plate, 'mjd': mjd, 'fiber': fiber}})
 
@@ -516,6 +594,39 @@ def gen_scenario(rng, si, kind, root, thorough=False):
     # ---- standard scenarios
     def vec_call(tag, reqs, **k):
         add(tag, aarg([r[0] for r in reqs]), aarg([r[1] for r in reqs]), aarg([r[2] for r in reqs]), reqs, **k)
+
+    if kind == 'holes':
+        # files that differ in what they hold.  No claim that a call raises; an answer that IS returned is judged by the first
+        # sentence of the property alone (Model.rows_belong, case CReadPartial): one row per request in every returned array,
+        # row i = the row of request i wherever request i has a file holding that HDU / column
+        def some(ks, n):
+            out = [(metas[k]['plate'], metas[k]['mjd'], rng.randint(1, metas[k]['nfib'])) for k in ks]
+            out += [(lambda mt: (mt['plate'], mt['mjd'], rng.randint(1, mt['nfib'])))(metas[rng.choice(ks)]) for _ in range(n)]
+            rng.shuffle(out)
+            return out
+        nm = len(metas)
+        zn = rng.randint(1, nper)
+        plan = [('complete-file-only', [0], None), ('complete-file-only-znum', [0], zn)]
+        if nm >= 2:
+            plan += [('one-without-spZbest', [0, 1], None), ('one-without-spZall', [0, 1], zn), ('only-the-one-without-spZbest', [1], None),
+                     ('one-without-spZbest-first', [1, 0], None)]
+        if nm >= 3:
+            plan += [('one-without-photoPlate', [0, 2], None), ('three-kinds', [0, 1, 2], None), ('only-the-one-without-photoPlate', [2], None)]
+        if nm >= 4:
+            plan += [('one-truncated-spPlate', [0, 3], None), ('only-the-truncated-spPlate', [3], None), ('all-four', [0, 1, 2, 3], zn)]
+        for tag, ks, z in plan:
+            r = some(ks, rng.randint(1, 4))
+            if tag.endswith('-first'):
+                r.sort(key=lambda t: 0 if (t[0], t[1]) == (metas[ks[0]]['plate'], metas[ks[0]]['mjd']) else 1)
+            vec_call('holes-' + tag, r, znum=z, feature='holes')
+        # a request without any file among requests of complete files (first, middle, last position)
+        for pos in ('first', 'middle', 'last'):
+            r = some([0], rng.randint(2, 4))
+            mt = metas[0]
+            newm = mt['mjd'] - 1 if (mt['plate'], mt['mjd'] - 1) not in meta_of else mt['mjd'] + 7
+            r.insert({'first': 0, 'middle': len(r) // 2, 'last': len(r)}[pos], (mt['plate'], newm, 1))
+            vec_call('holes-missing-spPlate-' + pos, r, feature='holes')
+        return sc
 
     if kind == 'bigz':
         # realistic magnitudes: the spZall row (fiber-1)*nper+znum-1 reaches 133 999, far beyond 16 bits (first above 32767:
@@ -625,6 +736,19 @@ def gen_scenario(rng, si, kind, root, thorough=False):
     if mt['plate'] < 10000:
         add('uint64-len1-plate-mjd-omitted', aarg([mt['plate']]), None, aarg(fs), [(mt['plate'], lm, f) for f in fs],
             pass_runs='env', feature='uint64', store={'plate': 'u8', 'mjd': None, 'fiber': 'u8'})
+    # the SAME argument objects passed again after their owner refilled them in place (a scratch buffer of requests): the
+    # answer must be the one of the values they hold at the time of each call
+    n_re = rng.randint(2, 6)
+    ra, rb = rand_reqs(n_re), rand_reqs(n_re)
+    for _ in range(8):
+        if rb != ra:
+            break
+        rb = rand_reqs(n_re)
+    rst = rng.choice(['i4', 'i8', '>i4', '>i8', 'u4', 'nc:i8', 'nc:>i4', 'rv:i4', 'list'])
+    rstore = {'plate': rst, 'mjd': rst, 'fiber': rst}
+    if thorough or si % 3 != 2:
+        vec_call('reuse-objects-first', ra, feature='reuse', store=rstore, reuse='buf%d' % si)
+        vec_call('reuse-objects-refilled', rb, feature='reuse', store=rstore, reuse='buf%d' % si)
     # the first call once more at the end: same answer, earlier results untouched
     first = sc['calls'][0]
     sc['calls'].append({**first, 'tag': 'repeat-first-call', 'call': dict(first['call'])})
@@ -682,6 +806,7 @@ def gen_history(rng, si, root):
             ('C', 'topdir', os.path.join(top, 'T'), R2, sets([0, 1, 2], [0, 1]), rng.choice(['topdir', 'env'])),
             ('D', 'topdir', os.path.join(top, 'E'), R1, sets([1], [2]), 'env')]
     uid = [0]
+    h_ucols = rng.random() < 0.5
 
     def metas_of(msets):
         out = []
@@ -691,6 +816,8 @@ def gen_history(rng, si, root):
                 out.append({'uid': uid[0], 'plate': p, 'mjd': m, 'nfib': nfib, 'npix': rng.randint(3, 8), 'nper': 2,
                             'c0z': 3 * SCALE + rng.randint(SCALE // 2, SCALE // 2 + 200000), 'c1z': rng.randint(90, 125),
                             'has_zbest': True, 'has_zall': False, 'has_photo': False})
+                if h_ucols:
+                    out[-1]['ucols'] = True
         return out
     subs = []
     for label, layout, t, run2d, msets, loc in spec:
@@ -705,7 +832,7 @@ def gen_history(rng, si, root):
                  'trees': [{'top': a['trees'][0]['top'], 'layout': 'path', 'run2d': a['run2d'], 'run1d': run1d, 'files': extra}],
                  'metas': a['metas'] + extra, 'calls': []})
     group = {'trees': [sc['trees'][0] for sc in subs[:4]], 'seq': [], 'top': top}
-    cols = {'plugmap': ['FIBERID', 'CODE', 'OBJTYPE', 'MAG', 'RA'], 'tsobj': ['OBJID', 'MODELFLUX'], 'zans': ['FIBERID', 'Z', 'CLASS']}
+    cols = call_columns(h_ucols)
     decoy = os.path.join(top, 'E')
 
     def add(k, tag, plate, mjd, fiber, reqs, build_first=None):
@@ -769,9 +896,9 @@ def gen_history(rng, si, root):
 
 def scenario_plan(ctx):
     if ctx.thorough:
-        kinds = ['bigz'] * 3 + ['path'] * 50 + ['path5'] * 8 + ['env'] * 30 + ['env-sdss'] * 15 + ['topdir'] * 20 + ['allfib-sdss'] * 2 + ['allfib-boss'] * 5
+        kinds = ['bigz'] * 3 + ['holes'] * 6 + ['path'] * 50 + ['path5'] * 8 + ['env'] * 30 + ['env-sdss'] * 15 + ['topdir'] * 20 + ['allfib-sdss'] * 2 + ['allfib-boss'] * 5
     else:
-        kinds = ['bigz'] + ['path'] * 8 + ['path5'] * 2 + ['env'] * 4 + ['env-sdss'] * 2 + ['topdir'] * 4 + ['allfib-sdss'] + ['allfib-boss'] * 2
+        kinds = ['bigz'] + ['holes'] + ['path'] * 7 + ['path5'] * 2 + ['env'] * 4 + ['env-sdss'] * 2 + ['topdir'] * 4 + ['allfib-sdss'] + ['allfib-boss'] * 2
     return kinds
 
 
@@ -853,7 +980,7 @@ def gen_append_histories(ctx):
 def gen_append(ctx):
     rng = ctx.rng
     cases = []
-    for k in range(ctx.n(400, 4000)):
+    for k in range(ctx.n(320, 4000)):
         n1, n2 = rng.randint(1, 4), rng.randint(1, 4)
         w1, w2 = rng.randint(1, 7), rng.randint(1, 7)
         if rng.random() < 0.3:
@@ -1038,6 +1165,32 @@ def call_term(cm, res):
                                             C.optlit(cm['znum'], C.zlit), reqs, exp)
 
 
+def partial_term(sc, cm, res):
+    """a call on files that differ in what they hold: every returned array with the output it claims to be (Model.CReadPartial)"""
+    reqs = C.coq_list(['(%s, %s, %s)' % (C.zlit(p), C.zlit(mj), C.zlit(f)) for p, mj, f in cm['reqs']])
+    if 'err' in res:
+        return '(CReadPartial sv %s None)' % reqs
+    f0 = file_arrays(sc['metas'][0])       # the complete file names the outputs
+    what = {n: '(WImg %d)' % h for h, n in enumerate(IMG_NAMES)}
+    what['loglam'] = 'WLoglam'
+    for ci, c in enumerate(f0['plug']):
+        what['plugmap.' + c['name']] = '(WTab %d)' % ci
+    for ci, c in enumerate(f0['photo']):
+        what['tsobj.' + c['name']] = '(WTab %d)' % (len(f0['plug']) + ci)
+    for ci, c in enumerate(f0['zbest'] if cm['znum'] is None else f0['zall']):
+        what['zans.' + c['name']] = ('(WZbest %d)' % ci) if cm['znum'] is None else '(WZall %d %s)' % (ci, C.zlit(cm['znum']))
+    outs = ['(%s, %s)' % (what[n], zl(a)) for n, a in zip(res['names'], res['arrays']) if n in what]
+    return '(CReadPartial sv %s (Some %s))' % (reqs, C.coq_list(outs))
+
+
+def dtype_changes(sc, cm, res):
+    """returned arrays whose dtype is not the one the data were written with (byte order aside)"""
+    if 'err' in res or 'dtypes' not in res:
+        return []
+    exp = expected_dtypes(file_arrays(sc['metas'][0]), cm['znum'])
+    return sorted('%s: %s, written as %s' % (n, d, exp[n]) for n, d in zip(res['names'], res['dtypes']) if exp.get(n) and d != exp[n])
+
+
 def classify(sc, cm, res):
     """outcome string for the signature: which output groups differ from the specification / which error"""
     if 'err' in res:
@@ -1132,9 +1285,20 @@ def correspond(ctx, proof_ok=True):
     # ---- evaluate model and specification in Coq: one shard per scenario (the survey is defined once per shard)
     file_verdicts = {}
 
+    def retrying(f, *a, **kw):
+        """a coqc process killed from outside (out-of-memory killer on a crowded machine) is not an observation: evaluate again;
+        a deterministic failure fails three times and is reported as before"""
+        for attempt in range(3):
+            try:
+                return f(*a, **kw)
+            except C.CoqEvalError:
+                if attempt == 2:
+                    raise
+                time.sleep(5 + 20 * attempt)
+
     def eval_scenario(k):
         try:
-            return eval_scenario_(k)
+            return retrying(eval_scenario_, k)
         except C.CoqEvalError as e:   # one unevaluable shard must not hide the others
             ctx.notes.append('scenario %d: %s' % (k, str(e)[:300]))
             return [1] * len(scenarios[k]['calls']), 0.0, ['(* not evaluated *)'] * len(scenarios[k]['calls'])
@@ -1155,11 +1319,12 @@ def correspond(ctx, proof_ok=True):
         # realistic-size trees: one coqc per call (the 1000-row answers take long to read; the survey itself is small)
         cc = C.CoqCases(ctx.work, header, 'run_cases', shard=1 if sc['kind'] == 'bigz' else 1000, timeout=1500)
         # align-grid calls have no Coq case (checked directly below): a trivially true placeholder keeps the indices aligned
-        terms = ['(CAppend [] [] 0 (Some []))' if cm['feature'] == 'align-grid' else call_term(cm, res)
+        terms = ['(CAppend [] [] 0 (Some []))' if cm['feature'] == 'align-grid' else
+                 (partial_term(sc, cm, res) if cm['feature'] == 'holes' else call_term(cm, res))
                  for cm, res in zip(sc['calls'], results[k])]
         # which spPlate files each successful call opened (path model)
         fidx = [j for j, (cm, res) in enumerate(zip(sc['calls'], results[k]))
-                if cm['reqs'] is not None and 'err' not in res and not res.get('bad') and cm['feature'] != 'align-grid']
+                if cm['reqs'] is not None and 'err' not in res and not res.get('bad') and cm['feature'] not in ('align-grid', 'holes')]
         fterms = [files_term(sc, sc['calls'][j], results[k][j]) for j in fidx]
         v = cc.run(terms + fterms, tag='scen%03d' % k)
         file_verdicts[k] = dict(zip(fidx, zip(v[len(terms):], fterms)))
@@ -1169,18 +1334,18 @@ def correspond(ctx, proof_ok=True):
         evals = list(ex.map(eval_scenario, range(len(scenarios))))
     cc = C.CoqCases(ctx.work, HEADER, 'run_cases', shard=120)
     app_terms = [append_term(c, r) for c, r in zip(app_cases, app_results)]
-    app_verdicts = cc.run(app_terms, tag='append')
+    app_verdicts = retrying(cc.run, app_terms, tag='append')
     # append histories: every operation against the model's pure answer for the values its inputs should hold
     hist_ops = [(hi, oi) for hi, h in enumerate(app_hist) for oi in range(len(h['ops']))]
     hist_terms = []
     for hi, oi in hist_ops:
         h, op, r = app_hist[hi], app_hist[hi]['ops'][oi], hist_results[hi][oi]
         hist_terms.append(append_term({'a': h['pure'][op['a']], 'b': h['pure'][op['b']], 'shift': op['shift']}, r))
-    hist_verdicts = cc.run(hist_terms, tag='apphist')
+    hist_verdicts = retrying(cc.run, hist_terms, tag='apphist')
     sp_terms = [specpath_term(c, r) for c, r in zip(sp_cases, sp_results)]
-    sp_verdicts = cc.run(sp_terms, tag='specpath')
+    sp_verdicts = retrying(cc.run, sp_terms, tag='specpath')
     typed_terms = [typed_term(c, r) for c, r in zip(typed_cases, typed_results)]
-    typed_verdicts = C.CoqCases(ctx.work, TYPED_HEADER, 'run_cases', shard=200).run(typed_terms, tag='typed') if typed_terms else []
+    typed_verdicts = retrying(C.CoqCases(ctx.work, TYPED_HEADER, 'run_cases', shard=200).run, typed_terms, tag='typed') if typed_terms else []
     ctx.coverage['coq_eval_s'] = round(cc.coq_seconds + max(e[1] for e in evals), 1)
 
     # ---- decide
@@ -1193,7 +1358,21 @@ def correspond(ctx, proof_ok=True):
     n_rows = 0
     seen = set()
     model_dis = spec_vio = 0
+    n_dtype_checked = 0
     samples = []
+    # ---- what importing pydl the way a user does (import pydl; import pydl.pydlspec2d; from ... import readspec) did to the
+    # process-global state of a fresh interpreter (every implementation process records it)
+    imp = [d for o in outs for d in o.get('import_changes', [])]
+    ctx.coverage['global_state'] = {'fresh_interpreters': len(outs), 'changed_at_import': sorted(set(d['item'] for d in imp)),
+                                    'after_all_calls': outs[0].get('global_state')}
+    if imp:
+        items = sorted(set(d['item'] for d in imp))
+        model_dis += 1
+        ctx.violation('C16:globals:import:%s:model' % '+'.join(items),
+                      'importing pydl changes process-global state: %s' % '; '.join('%s: %s -> %s (%s)' % (d['item'], d['before'], d['after'], d['stage']) for d in imp[:3]),
+                      {'kind': 'broken-correspondence', 'item': 'process-global state at import (astropy.io.fits.conf, np.geterr, np.get_printoptions, os.environ)',
+                       'changes': imp[:6], 'note': 'snapshots taken in a fresh interpreter before import pydl, after it, after import pydl.pydlspec2d and after '
+                                                    'importing readspec; readspec is modelled as a pure function of the files'}, False)
     for k, sc in enumerate(scenarios):
         verdicts, _, terms = evals[k]
         for cj, (cm, res, v, term) in enumerate(zip(sc['calls'], results[k], verdicts, terms)):
@@ -1222,6 +1401,52 @@ def correspond(ctx, proof_ok=True):
                                        'impl_result': {'names': res['names'][:7], 'arrays': res['arrays'][:7]},
                                        'meaning': 'images of request i must start at column (COEFF0_i - min COEFF0)/COEFF1, zeros elsewhere; loglam = '
                                                   'min COEFF0 + COEFF1*column (units 2^-20)'}, True)
+                continue
+            scen_rep = {'kind': sc['kind'], 'si': sc['si'], 'run2d': sc['run2d'], 'run1d': sc['run1d'], 'metas': sc['metas'], 'trees': sc['trees']}
+            # ---- process-global state must be what it was before the call
+            if res.get('globals_changed'):
+                items = sorted(set(d['item'] for d in res['globals_changed']))
+                gsig = 'C16:globals:call:%s:model' % '+'.join(items)
+                if gsig not in seen:
+                    seen.add(gsig)
+                    model_dis += 1
+                    ctx.violation(gsig, 'a readspec call changed process-global state (%s) on %s' % (', '.join(items), cm['tag']),
+                                  {'kind': 'broken-correspondence', 'item': 'process-global state across a readspec call (the model is a pure function)',
+                                   'changes': res['globals_changed'], 'call': cm['call'], 'scenario': scen_rep}, False)
+            # ---- every returned array has the dtype its data were written with (unsigned stays unsigned, integers stay integers)
+            dch = dtype_changes(sc, cm, res)
+            n_dtype_checked += 0 if 'err' in res else len(res.get('dtypes', []))
+            if dch:
+                cls = '+'.join(sorted(set(group_of(x.split(':')[0]) for x in dch)))
+                dsig = 'C16:readspec:%s:%s:dtype-changed=%s:property' % ('topdir' if sc['kind'] == 'topdir' else 'std', cm['feature'], cls)
+                if dsig not in seen:
+                    seen.add(dsig)
+                    spec_vio += 1
+                    ctx.violation(dsig, 'readspec returns arrays that are not the stored ones: dtype differs from the file (%s) on %s' % ('; '.join(dch[:4]), cm['tag']),
+                                  {'kind': 'failing-input', 'what': 'readspec', 'scenario': scen_rep, 'call': cm['call'], 'requests': cm['reqs'], 'znum': cm['znum'],
+                                   'tag': cm['tag'], 'dtype_changes': dch, 'impl_result': {'names': res['names'], 'dtypes': res['dtypes']},
+                                   'meaning': 'table columns written as unsigned 64/32/16-bit integers (TZEROn) and unsigned 32-bit pixel masks (BZERO) must come back '
+                                              'with the dtype and the exact values of row fibre-1 of the file; a float64 detour rounds identifiers above 2^53'}, True)
+            if cm['feature'] == 'holes':
+                # files differing in what they hold / requests without a file: no claim that the call raises; a returned answer is judged
+                # by the first sentence of the property (Model.rows_belong)
+                okey = 'holes:%s:%s' % (cm['tag'], ('impl=' + res['err']) if 'err' in res else 'returned')
+                dist[okey] = dist.get(okey, 0) + 1
+                if v == 0:
+                    continue
+                spec_vio += 1
+                nr = sorted(set(res.get('nrows', [])))
+                sig = 'C16:readspec:std:holes:%s:returned-rows-do-not-belong:property' % cm['tag'].replace('holes-', '')
+                if sig not in seen:
+                    seen.add(sig)
+                    ctx.violation(sig, 'readspec returned an answer whose rows do not belong to the requests (%d requests, arrays with %s rows) on %s' % (
+                        len(cm['reqs']), nr, cm['tag']),
+                        {'kind': 'failing-input', 'what': 'readspec', 'scenario': scen_rep, 'call': cm['call'], 'requests': cm['reqs'], 'znum': cm['znum'],
+                         'tag': cm['tag'], 'impl_result': {'names': res['names'], 'nrows': res.get('nrows'), 'arrays': res['arrays'][:1] + res['arrays'][7:], 'bad': res['bad']},
+                         'verdict': v, 'coq_case': term[:3000],
+                         'meaning': 'the files of this tree differ in what they hold (metas: has_zbest / has_zall / has_photo / truncated) or a request has no file; '
+                                    'the call may raise, but every array it RETURNS must have one row per request and row i must be row fibre_i-1 of the '
+                                    'file of request i wherever that file holds the HDU / column (Model.rows_belong)'}, True)
                 continue
             outcome = classify(sc, cm, res)
             key = '%s:%s:%s' % (sc['kind'], cm['tag'].split('=')[0], 'ok' if outcome == 'same' else outcome.split('=')[0] + ('=' + res['err'] if 'err' in res else ''))
@@ -1293,7 +1518,14 @@ def correspond(ctx, proof_ok=True):
                     'sequence': [{'sub': scenarios[grp['base'] + ks]['sub'], 'call': scenarios[grp['base'] + ks]['calls'][j]['call'],
                                   'requests': scenarios[grp['base'] + ks]['calls'][j]['reqs'], 'build_first': bf}
                                  for (ks, j, bf) in grp['seq'][:pos + 1]]}
-            if v & 2:
+            if v & 2 and outcome == 'impl=returned':
+                rep['impl_result']['nrows'] = res.get('nrows')
+                rep['meaning'] += ('; here a request has no file / no such row and the call RETURNED: the specification makes no claim that it raises, but '
+                                   'every returned array must have one row per request and row i must be the row of request i wherever request i has '
+                                   'a file (Model.partial_ok)')
+                ctx.violation(sig, 'readspec returned an answer whose rows do not line up with the requests: %d requests, arrays with %s rows, on %s (%s)' % (
+                    len(cm['reqs'] or []), sorted(set(res.get('nrows', []))), cm['tag'], sc['kind']), rep, True)
+            elif v & 2:
                 ctx.violation(sig, 'readspec output contradicts the specification: %s on %s (%s)' % (outcome, cm['tag'], sc['kind']), rep, True)
             else:
                 rep['item'] = 'C16.Model.readspec_model'
@@ -1417,6 +1649,7 @@ def correspond(ctx, proof_ok=True):
                 'column compared exactly, inside Coq, with the algorithmic model readspec_model and with the request-by-request '
                 'specification readspec_S) or one spec_append call (compared with spec_append and spec_append_S); '
                 'distinct = distinct Coq case terms',
+        'returned_arrays_dtype_checked': n_dtype_checked,
         'readspec_calls': n_calls, 'requested_rows': n_rows, 'spec_append_calls': len(app_cases),
         'history_groups': len(groups), 'history_calls': sum(len(g['seq']) for g in groups),
         'scenarios': len(scenarios), 'scenario_kinds': {k: scenario_plan(ctx).count(k) for k in sorted(set(scenario_plan(ctx)))},
@@ -1473,7 +1706,10 @@ def replay(ctx, rep):
     res = out['results'][0][0]
     files = [file_arrays(m) for m in sc['trees'][0]['files']]
     reqs = [tuple(r) for r in rep['requests']] if rep.get('requests') else None
-    sp = spec_py(files, reqs, rep.get('znum')) if reqs else None
+    try:
+        sp = spec_py(files, reqs, rep.get('znum')) if reqs else None
+    except IndexError:        # files that differ in what they hold (holes): no whole-call specification
+        sp = None
     print('files  :', [(m['plate'], m['mjd'], 'nfib=%d' % m['nfib'], 'npix=%d' % m['npix'], 'uid=%d' % m['uid']) for m in sc['trees'][0]['files']])
     print('call   : readspec(plate=%s, mjd=%s, fiber=%s, **%s)  env=%s' % (call['plate'], call['mjd'], call['fiber'], call['kwargs'], call['env']))
     print('requests (plate, mjd, fiber):', reqs)
